@@ -272,6 +272,104 @@ fn c20_serde_malformed(ctx: &mut Ctx) {
     ctx.set_nontrivial(true);
 }
 
+
+/// Checks one JSON text against the deserializer: whatever deserialises must be a valid pair, and
+/// when the text is an object/array carrying exactly two finite numbers under hi/lo the outcome is
+/// decided completely (Ok <=> valid, words preserved).
+fn check_json_text(ctx: &mut Ctx, text: &str) {
+    let r = match guard(|| serde_json::from_str::<TwoFloat>(text)) {
+        Ok(r) => r,
+        Err(m) => {
+            ctx.fail(format!("deserialising {:?} panicked: {m}", text));
+            return;
+        }
+    };
+    if let Ok(t) = &r {
+        let d = Dd::of(*t);
+        ctx.label("json:accepted");
+        check!(ctx, d.valid(), "JSON {:?} deserialised into the invalid TwoFloat {}", text, d.show());
+        ctx.set_nontrivial(true);
+    }
+    // reference model on the generic value tree
+    if let Ok(v) = serde_json::from_str::<serde_json::Value>(text) {
+        ctx.label("json:well-formed");
+        let words: Option<(f64, f64)> = match &v {
+            serde_json::Value::Array(a) if a.len() == 2 => a[0].as_f64().zip(a[1].as_f64()),
+            serde_json::Value::Object(o) if o.len() == 2 => o.get("hi").and_then(|x| x.as_f64()).zip(o.get("lo").and_then(|x| x.as_f64())),
+            _ => None,
+        };
+        let dup = text.matches("\"hi\"").count() > 1 || text.matches("\"lo\"").count() > 1;
+        if let (Some((h, l)), false) = (words, dup) {
+            let want = Dd::new(h, l).valid();
+            ctx.label("json:two-numbers");
+            check!(ctx, r.is_ok() == want, "JSON {:?}: deserialised ok = {} but the pair ({}, {}) valid = {}", text, r.is_ok(), showf(h), showf(l), want);
+            if let Ok(t) = &r {
+                check!(ctx, t.hi() == h && t.lo() == l, "JSON {:?} changed the words: {}", text, Dd::of(*t).show());
+            }
+            ctx.set_nontrivial(true);
+        }
+    }
+}
+
+/// grammar-level generation: each item selects a token; numbers come from the f64 classes
+fn c20_json_grammar(ctx: &mut Ctx) {
+    let items: Vec<[u64; 4]> = ctx.items.to_vec();
+    let mut text = String::new();
+    let shape = ctx.below(4);
+    // start from a canonical skeleton most of the time so that accepted inputs are common
+    if shape < 3 {
+        let cw = crate::engine::CaseWords { head: (0..24).map(|i| items.first().map_or(i as u64, |it| it[i % 4].rotate_left(i as u32 * 5))).collect(), items: vec![] };
+        let mut c2 = Ctx::new(&cw, &[]);
+        let hi = f64_any(&mut c2);
+        let lo = if hi.is_finite() && hi != 0.0 && c2.chance(2, 3) { low_word(&mut c2, if exponent(hi) >= -1022 { hi } else { 1.0 }) } else { f64_any(&mut c2) };
+        let num = |x: f64| if x.is_finite() { format!("{:e}", x) } else { "1e999".to_string() };
+        text = match shape {
+            0 => format!("{{\"hi\":{},\"lo\":{}}}", num(hi), num(lo)),
+            1 => format!("{{\"lo\":{},\"hi\":{}}}", num(lo), num(hi)),
+            _ => format!("[{},{}]", num(hi), num(lo)),
+        };
+    }
+    // then splice tokens chosen by the items (insert / replace / append)
+    const TOK: [&str; 22] = ["{", "}", "[", "]", ":", ",", "\"hi\"", "\"lo\"", "\"x\"", "null", "true", "1e999", "-0.0", "0", "1", "1.5e-17", "\"hi\":1", "\"lo\":0", " ", "1e-400", "5e-324", "\"\""];
+    let nsplice = if items.len() > 1 && items[0][3] % 3 == 0 { items.len() - 1 } else { 0 };
+    for it in items.iter().skip(1).take(nsplice.min(if items.first().map_or(0, |i| i[3] % 5) < 3 { 1 } else { 8 })) {
+        let tok = TOK[(it[0] % TOK.len() as u64) as usize];
+        let pos = if text.is_empty() { 0 } else { (it[1] % (text.len() as u64 + 1)) as usize };
+        let pos = (0..=pos).rev().find(|p| text.is_char_boundary(*p)).unwrap_or(0);
+        match it[2] % 3 {
+            0 => text.insert_str(pos, tok),
+            1 => text.push_str(tok),
+            _ => {
+                let end = (pos + tok.len()).min(text.len());
+                let end = (end..=text.len()).find(|p| text.is_char_boundary(*p)).unwrap_or(text.len());
+                text.replace_range(pos..end, tok);
+            }
+        }
+    }
+    for b in text.bytes() {
+        ctx.key_u64(b as u64);
+    }
+    ctx.note("json", || text.clone());
+    check_json_text(ctx, &text);
+}
+
+/// raw bytes (libFuzzer target c20_json and its replays; the proptest runner gives it no budget)
+fn c20_json_bytes(ctx: &mut Ctx) {
+    let mut bytes = Vec::new();
+    for _ in 0..64 {
+        bytes.extend_from_slice(&ctx.word().to_le_bytes());
+    }
+    while bytes.last() == Some(&0) {
+        bytes.pop();
+    }
+    for b in &bytes {
+        ctx.key_u64(*b as u64);
+    }
+    let text = String::from_utf8_lossy(&bytes).to_string();
+    ctx.note("json", || text.clone());
+    check_json_text(ctx, &text);
+}
+
 /// IntoDeserializer sanity so that the f64 tokens are really exact (guards the harness itself)
 #[allow(dead_code)]
 fn _f64_tokens_are_exact() {
@@ -289,6 +387,8 @@ pub fn c20() -> Property {
             g("serde_roundtrip", c20_serde_roundtrip, 200_000, 5_000_000),
             g("serde_arbitrary", c20_serde_arbitrary, 400_000, 10_000_000),
             g("serde_malformed", c20_serde_malformed, 100_000, 2_000_000),
+            SubCheck { name: "json_grammar", kind: Kind::Generated { words: 2, max_items: 8 }, eval: c20_json_grammar, quick: 200_000, thorough: 5_000_000 },
+            SubCheck { name: "json_bytes", kind: Kind::Generated { words: 64, max_items: 0 }, eval: c20_json_bytes, quick: 0, thorough: 0 },
         ],
     }
 }
